@@ -247,6 +247,67 @@ def fnat_case(rl, dl, cutoff, family, via='file', default=False, raw_ok=True, do
             'raw_ok': raw_ok, 'domain': domain}
 
 
+def n_ref_contacts(lines, cutoff):
+    """number of residue pairs of different chains with heavy atoms within the cutoff (generator side: decides what is generated)"""
+    at = [a for a in millis(lines) if heavy(a[2])]
+    c2 = (cutoff * 1000.0) ** 2
+    pairs = set()
+    for a, b in itertools.combinations(at, 2):
+        if a[0] != b[0] and sum((p - q) ** 2 for p, q in zip(a[3], b[3])) <= c2:
+            pairs.add(frozenset(((a[0], a[1]), (b[0], b[1]))))
+    return len(pairs)
+
+
+HISTORY_CUTOFFS = [3.0, 3.5, 4.0, 5.0, 6.0, 8.0]
+
+
+def history_case(rng, k):
+    """ONE StructureSimilarity object, 2-4 calls mixing the routes, with cutoffs whose reference contact sets differ from call to call
+    (also repeated identical calls, the default cutoff, and the static compute_clashes in between)"""
+    for attempt in range(60):
+        fam = rng.choice(['self', 'jitter', 'del_iface_first', 'del_iface_second', 'rigid_chain', 'mix'])
+        chains = rng.choice(CHAIN_PAIRS)
+        ref = cg.make_complex(rng, chains=chains, gap=rng.choice([3.5, 4.5, 6.0]))
+        dec = make_decoy(rng, ref, fam, 5.0)
+        rl, dl = ref.lines(), dec.lines()
+        if len({l[21] for l in dl}) < 2 or len(dl) < 4:
+            continue
+        counts = {c: n_ref_contacts(rl, c) for c in HISTORY_CUTOFFS}
+        usable = [c for c in HISTORY_CUTOFFS if counts[c] > 0 and not near_cutoff(rl, c) and not near_cutoff(dl, c)]
+        distinct = sorted({counts[c]: c for c in usable}.values())        # one cutoff per distinct number of reference contacts
+        if len(distinct) < 2 or not clash_free_of_exact3(dl):
+            _STATS['regenerated_near_cutoff'] += 1
+            continue
+        ncalls = rng.randint(2, 4)
+        pattern = rng.choice(['fast-fast', 'fast-fast', 'fast-fast', 'mixed', 'mixed', 'mixed', 'repeat', 'repeat', 'sql-sql'])
+        cuts = rng.sample(distinct, min(len(distinct), ncalls))
+        if rng.random() < 0.5:
+            cuts.sort(reverse=rng.random() < 0.5)
+        while len(cuts) < ncalls:
+            cuts.append(rng.choice(distinct))
+        if pattern == 'repeat':                        # A, B, A (and A again): the same call before and after another cutoff
+            cuts = [cuts[0], cuts[1], cuts[0]] + ([cuts[0]] if ncalls == 4 else [])
+        calls = []
+        for i, c in enumerate(cuts):
+            if pattern in ('fast-fast', 'repeat'):
+                route = 'fast'
+            elif pattern == 'sql-sql':
+                route = 'sql'
+            else:                                      # mixed: the first two calls are fast ones at different cutoffs, the rest random
+                route = 'fast' if i < 2 else rng.choice(['fast', 'sql'])
+            calls.append({'route': route, 'cutoff': 'default' if (c == 5.0 and rng.random() < 0.3) else rat(float(c))})
+            if pattern == 'mixed' and rng.random() < 0.5:
+                dch = sorted({l[21] for l in dl})
+                calls.append({'route': 'clashes', 'chain1': dch[0], 'chain2': dch[1]})
+                if rng.random() < 0.5:
+                    calls.append({'route': 'sql', 'cutoff': rat(float(rng.choice(distinct)))})
+        fast_cuts = {('5/1' if cl['cutoff'] == 'default' else cl['cutoff']) for cl in calls if cl['route'] == 'fast'}
+        return {'op': 'fnat_history', 'ref': rl, 'dec': dl, 'calls': calls, 'family': 'history-' + pattern, 'via': rng.choice(['file', 'file', 'list']),
+                'raw_ok': True, 'domain': True, 'decoy_family': fam,
+                'ref_contacts': {rat(float(c)): counts[c] for c in distinct}, 'fast_cutoffs': len(fast_cuts)}
+    raise RuntimeError('generator could not build a history case')
+
+
 def clash_case(lines, chain1, chain2, family, default=False):
     return {'op': 'clashes', 'lines': lines, 'chain1': chain1, 'chain2': chain2, 'family': family, 'default': default}
 
@@ -290,6 +351,23 @@ def cases(ctx):
             out.append(fnat_case(rl, dl, c, f'lattice{cutoff:g}', via=rng.choice(['file', 'list']), default=(cutoff == 5.0 and k % 2 == 0)))
             out[-1]['exact_pairs'] = [exact_at_cutoff(rl, c), exact_at_cutoff(dl, c)]
     out += malformed_cases(ctx)
+    # decoys without any inter-chain heavy-atom contact (one chain moved 60 A away): Fnat 0 on both routes
+    for k in range(ctx.scale(4, 20)):
+        for attempt in range(30):
+            cutoff = rng.choice(CUTOFFS)
+            ref = cg.make_complex(rng, chains=rng.choice(CHAIN_PAIRS), gap=rng.choice([3.5, 4.5]))
+            dec = ref.copy()
+            far = dec.chains()[rng.randrange(2)]
+            for r in dec.residues:
+                if r['chain'] == far:
+                    r['atoms'] = [(n_, e_, (x, round(y + 60.0, 3), z)) for (n_, e_, (x, y, z)) in r['atoms']]
+            rl, dl = ref.lines(), dec.lines()
+            if n_ref_contacts(rl, cutoff) > 0 and not near_cutoff(rl, cutoff):
+                break
+        out.append(fnat_case(rl, dl, cutoff, 'decoy_no_contact', via=rng.choice(['file', 'list'])))
+    # ---- histories on one object
+    for k in range(ctx.scale(36, 200)):
+        out.append(history_case(rng, k))
     # ---- clashes
     for k in range(ctx.scale(24, 200)):
         for attempt in range(20):
@@ -362,6 +440,9 @@ def search_cases(ctx):
         for k in range(15):
             rl, dl, cutoff = random_pair(rng, fam)
             out.append(fnat_case(rl, dl, cutoff, 'search-' + fam, via='list'))
+    for k in range(40):
+        out.append(history_case(rng, k))
+        out[-1]['family'] = 'search-' + out[-1]['family']
     for k in range(30):
         cx = lattice_complex(rng, 3.0, ['inside', 'outside'])
         if clash_free_of_exact3(cx.lines()):
@@ -403,11 +484,33 @@ def write(ctx, lines):
     return p
 
 
-def val(f):
+def canon_value(v, kind='fraction'):
+    """canonical form of what a routine returned; anything that is not the expected number becomes a tag that disagrees with every model value"""
     try:
-        return rat(float(f()))
-    except Exception as e:
+        if isinstance(v, bool) or v is None:
+            return f'BAD-RETURN:{type(v).__name__}'
+        if kind == 'count':
+            if isinstance(v, (int, np.integer)):
+                return int(v)
+            return f'BAD-RETURN:{type(v).__name__}'
+        if isinstance(v, (int, float, np.integer, np.floating)):
+            x = float(v)
+            if x != x or x in (float('inf'), float('-inf')):
+                return f'BAD-RETURN:{x!r}'
+            return rat(x)
+        return f'BAD-RETURN:{type(v).__name__}'
+    except Exception as e:                               # never let a strange return value crash the harness
+        return f'BAD-RETURN:{type(e).__name__}'
+
+
+def val(f, kind='fraction'):
+    try:
+        r = f()
+    except BaseException as e:                           # SystemExit (sys.exit in _fix_chainID) included
+        if isinstance(e, KeyboardInterrupt):
+            raise
         return exc_tag(e)
+    return canon_value(r, kind)
 
 
 def impl(ctx, c):
@@ -433,14 +536,35 @@ def impl(ctx, c):
                 if isinstance(p, str) and os.path.exists(p):
                     os.remove(p)
             return out
-        p = write(ctx, c['lines'])
-        try:
-            if c['default']:
-                v = int(StructureSimilarity.compute_clashes(p))
+        if c['op'] == 'fnat_history':
+            if c['via'] == 'file':
+                ref, dec = write(ctx, c['ref']), write(ctx, c['dec'])
             else:
-                v = int(StructureSimilarity.compute_clashes(p, c['chain1'], c['chain2']))
-        except Exception as e:
-            v = exc_tag(e)
+                ref, dec = list(c['ref']), list(c['dec'])
+            S = StructureSimilarity(dec, ref)              # ONE object for the whole sequence
+            values = []
+            for cl in c['calls']:
+                if cl['route'] == 'clashes':
+                    values.append(val(lambda: StructureSimilarity.compute_clashes(dec, cl['chain1'], cl['chain2']), 'count'))
+                    continue
+                f = S.compute_fnat_fast if cl['route'] == 'fast' else S.compute_fnat_pdb2sql
+                if cl['cutoff'] == 'default':
+                    values.append(val(lambda: f()))
+                else:
+                    cut = float(unrat(cl['cutoff']))
+                    values.append(val(lambda: f(cutoff=cut)))
+            _COUNTER[0] += 1
+            out = {'values': values, 'tables': _COUNTER[0]}
+            _TABLES[out['tables']] = {'ref_atoms': parsed_table(c['ref']), 'dec_atoms': parsed_table(c['dec'])}
+            for p in (ref, dec):
+                if isinstance(p, str) and os.path.exists(p):
+                    os.remove(p)
+            return out
+        p = write(ctx, c['lines'])
+        if c['default']:
+            v = val(lambda: StructureSimilarity.compute_clashes(p), 'count')
+        else:
+            v = val(lambda: StructureSimilarity.compute_clashes(p, c['chain1'], c['chain2']), 'count')
         os.remove(p)
         _COUNTER[0] += 1
         _TABLES[_COUNTER[0]] = {'atoms': parsed_table(c['lines'])}
@@ -456,6 +580,10 @@ def driver_line(c, out):
         ra, da = tb.get('ref_atoms'), tb.get('dec_atoms')
         return {'op': 'fnat', 'ref_lines': [l + nl for l in c['ref']], 'dec_lines': [l + nl for l in c['dec']], 'cutoff': c['cutoff'],
                 'ref_atoms': ra if isinstance(ra, list) else [], 'dec_atoms': da if isinstance(da, list) else []}
+    if c['op'] == 'fnat_history':
+        ra, da = tb.get('ref_atoms'), tb.get('dec_atoms')
+        return {'op': 'fnat_history', 'ref_lines': [l + nl for l in c['ref']], 'dec_lines': [l + nl for l in c['dec']], 'calls': c['calls'],
+                'ref_atoms': ra if isinstance(ra, list) else [], 'dec_atoms': da if isinstance(da, list) else []}
     at = tb.get('atoms')
     return {'op': 'clashes', 'lines': [l + '\n' for l in c['lines']], 'chain1': c['chain1'], 'chain2': c['chain2'],
             'atoms': at if isinstance(at, list) else []}
@@ -470,7 +598,12 @@ TOL = Fraction(1, 10 ** 9)
 
 def same_value(a, b):
     """both exception tags, or both numbers within 1e-9; 'discard' for a one-unit difference in the sixth decimal"""
-    if str(a).startswith('ERR') or str(b).startswith('ERR'):
+    def is_num(v):
+        try:
+            unrat(v); return True
+        except Exception:
+            return False
+    if not (isinstance(a, str) and isinstance(b, str) and is_num(a) and is_num(b)):
         return True if a == b else f'{a!r} vs {b!r}'
     x, y = unrat(a), unrat(b)
     if abs(x - y) <= TOL:
@@ -481,6 +614,14 @@ def same_value(a, b):
 
 
 def agree_model(c, out, model):
+    if c['op'] == 'fnat_history':
+        if len(out['values']) != len(model['values']):
+            return 'history: number of answers differs'
+        for i, (cl, a, b) in enumerate(zip(c['calls'], out['values'], model['values'])):
+            v = (True if a == b else f'{a!r} vs {b!r}') if cl['route'] == 'clashes' else same_value(a, b)
+            if v is not True:
+                return v if v == 'discard' else f'call {i + 1} of {len(c["calls"])} on one object ({cl["route"]}, cutoff {cl.get("cutoff")}): implementation/model {v}'
+        return True
     if c['op'] == 'fnat':
         for route in ('fast', 'sql'):
             v = same_value(out[route], model[route])
@@ -502,6 +643,23 @@ def in_domain(c, spec, route):
 
 
 def agree_spec(c, out, spec):
+    if c['op'] == 'fnat_history':
+        tb = _TABLES.get(out['tables'], {})
+        if not isinstance(tb.get('ref_atoms'), list) or not isinstance(tb.get('dec_atoms'), list):
+            return True
+        for i, (cl, a, sp) in enumerate(zip(c['calls'], out['values'], spec['values'])):
+            where = f'call {i + 1} of {len(c["calls"])} on one object ({cl["route"]}, cutoff {cl.get("cutoff")})'
+            if cl['route'] == 'clashes':
+                if spec['same_chains'] and a != sp['value']:
+                    return f'{where}: compute_clashes {a!r}, definition {sp["value"]}'
+                continue
+            if not in_domain(c, spec, cl['route']):
+                continue
+            want = 'ERR:ZeroDivisionError' if sp['value'] == 'UNDEFINED' else sp['value']
+            v = same_value(a, want)
+            if v is not True:
+                return v if v == 'discard' else f'{where}: implementation/definition {v} (reference contacts at this cutoff: {sp["n_ref"]})'
+        return True
     if c['op'] == 'fnat':
         tb = _TABLES.get(out['tables'], {})
         if not isinstance(tb.get('ref_atoms'), list) or not isinstance(tb.get('dec_atoms'), list):
@@ -536,6 +694,8 @@ def classify(c, out, spec):
 
 
 def nontrivial_key(c, out):
+    if c['op'] == 'fnat_history':
+        return ['history', c['family'], json.dumps(c['calls'], sort_keys=True), out.get('values'), len(c['ref']), len(c['dec'])]
     if c['op'] == 'fnat':
         return ['fnat', c['family'], c['cutoff'], out.get('fast'), out.get('sql'), len(c['ref']), len(c['dec'])]
     return ['clashes', c['family'], out.get('value'), len(c['lines'])]
@@ -558,8 +718,12 @@ def distribution(recs):
             if isinstance(r.get('spec'), dict):
                 n_ref.append(r['spec'].get('n_ref', 0))
     cl = [r['impl']['value'] for r in recs if r['case']['op'] == 'clashes' and isinstance(r['impl'], dict) and isinstance(r['impl']['value'], int)]
+    hist = [r['case'] for r in recs if r['case']['op'] == 'fnat_history']
     ex = [r['case']['exact_pairs'] for r in recs if 'exact_pairs' in r['case']]
     return {'families': fam, 'fnat_values': vals, 'fnat_exceptions': errs,
+            'histories': {'sequences': len(hist), 'calls': sum(len(h['calls']) for h in hist),
+                          'with_two_or_more_fast_calls_at_different_cutoffs': sum(1 for h in hist if h['fast_cutoffs'] >= 2),
+                          'with_clashes_in_between': sum(1 for h in hist if any(cl['route'] == 'clashes' for cl in h['calls']))},
             'lattice_cases_with_pairs_exactly_at_cutoff': {'reference': sum(1 for e in ex if e[0] > 0), 'decoy': sum(1 for e in ex if e[1] > 0), 'of': len(ex)},
             'reference_contacts': {'min': min(n_ref) if n_ref else 0, 'max': max(n_ref) if n_ref else 0,
                                    'mean': round(sum(n_ref) / len(n_ref), 1) if n_ref else 0},
@@ -581,20 +745,21 @@ def extra_checks(ctx):
         ref = cg.make_complex(random.Random(1), nA=4, nB=4, hydrogens=True, gap=4.5)
         dec = ref.copy(); del dec.residues[0]
         S = StructureSimilarity(dec.lines(), ref.lines())
-        a, b = S.compute_fnat_fast(), S.compute_fnat_pdb2sql()
-        res.append({'name': 'first-chain interface residue missing: both routes agree and are below 1', 'ok': a == b and a < 1.0,
+        a, b = val(lambda: S.compute_fnat_fast()), val(lambda: S.compute_fnat_pdb2sql())
+        res.append({'name': 'first-chain interface residue missing: both routes agree and are below 1',
+                    'ok': a == b and same_value(a, a) is True and not a.startswith(('ERR', 'BAD')) and unrat(a) < 1,
                     'case': {'fast': a, 'sql': b, 'ref': ref.lines(), 'decoy': dec.lines()}, 'detail': 'denominator rule'})
         # 52132bc: a decoy residue reduced to its hydrogens is treated as absent
         dec = ref.copy(); dec.residues[0]['atoms'] = [x for x in dec.residues[0]['atoms'] if x[0].startswith('H')]
         S = StructureSimilarity(dec.lines(), ref.lines())
         a, b = val(lambda: S.compute_fnat_fast()), val(lambda: S.compute_fnat_pdb2sql())
-        res.append({'name': 'hydrogen-only decoy residue: both routes return the same value', 'ok': a == b and not a.startswith('ERR'),
+        res.append({'name': 'hydrogen-only decoy residue: both routes return the same value', 'ok': a == b and not a.startswith(('ERR', 'BAD')),
                     'case': {'fast': a, 'sql': b, 'ref': ref.lines(), 'decoy': dec.lines()}, 'detail': ''})
         # 16014ef: a blank atom name in the decoy
         dl = ref.lines(); dl[1] = dl[1][:12] + '    ' + dl[1][16:]
         S = StructureSimilarity(dl, ref.lines())
         a, b = val(lambda: S.compute_fnat_fast()), val(lambda: S.compute_fnat_pdb2sql())
-        res.append({'name': 'blank atom name in the decoy: both routes return the same value', 'ok': a == b and not a.startswith('ERR'),
+        res.append({'name': 'blank atom name in the decoy: both routes return the same value', 'ok': a == b and not a.startswith(('ERR', 'BAD')),
                     'case': {'fast': a, 'sql': b, 'decoy': dl}, 'detail': ''})
     finally:
         os.chdir(cwd)
@@ -607,7 +772,7 @@ PROBE = [cg.atom_line(1, 'CA', 'ALA', 'A', 1, 0.0, 0.0, 0.0), cg.atom_line(2, 'C
 def known_probes(ctx):
     """C08-F2: two heavy atoms of different chains at a distance of exactly 3 A (offset (1,2,2))"""
     p = write(ctx, PROBE)
-    got = int(StructureSimilarity.compute_clashes(p))
+    got = val(lambda: StructureSimilarity.compute_clashes(p), 'count')
     os.remove(p)
     ans = vlib.run_driver([{'op': 'clashes', 'lines': [l + '\n' for l in PROBE], 'chain1': 'A', 'chain2': 'B', 'atoms': parsed_table(PROBE)}],
                           which='model', cluster=CLUSTER)[0]
